@@ -498,7 +498,40 @@ def main():
                 run.violation('%s/%s/float-twin' % (cfg['group'], cfg['variant']), '%s %s: the float twin of the configuration fails on the real function although the symbolic run passed: %s' % (
                     cfg['target'], cfg['variant'], real), {'cfg': cfg, 'real_function': real, 'decided_by': 'one float run on the real route (no solver verdict for this branch)'})
     run.extra['float_twins'] = {'runs': len(twins), 'worst_relative_residual': max([t for t in twins if t is not None] or [0])}
+    # mass-scaling twin through Panel.freq on the compiled build (sampling, stated as such): the panel's own matrices, mass density
+    # scaled by s down to the magnitudes of a mm / tonne / s unit system: frequencies scale by 1/sqrt(s), sparse and dense agree
+    try:
+        ms = panel_mass_scaling_twin()
+    except Exception as e:
+        ms = [{'what': 'error', 'error': '%s: %s' % (type(e).__name__, e)}]
+    run.extra['panel_mass_scaling_twin'] = {'mismatches': len(ms)}
+    if ms:
+        run.obligations += 1
+        run.violation('panel-mass-scaling-twin/%s' % ms[0].get('what', 'error'), 'Panel.freq: frequencies do not scale by 1/sqrt(s) with the mass / paths disagree: %s' % (ms[:3],),
+                      {'mismatches': ms[:10], 'decided_by': 'float runs on the compiled build (no solver verdict for this branch)'})
     return run.finish()
+
+
+def panel_mass_scaling_twin():
+    from compmech.panel import Panel
+    lp = (142.5e9, 8.7e9, 0.28, 5.1e9, 5.1e9, 5.1e9)
+    bad = []
+    ref = None
+    for s_ in (1., 1e-6, 1e-12, 1e-15):
+        for sparse in (True, False):
+            p = Panel(a=2., b=0.5, stack=[0, 90, 90, 0], plyt=1e-3 * 0.125, laminaprop=lp, m=8, n=8, mu=1.3e3 * s_)
+            p.model = 'plate_clt_donnell_bardell'
+            p.freq(sparse_solver=sparse, silent=True)
+            w = np.asarray(p.eigvals[:4])
+            if np.iscomplexobj(w) and np.abs(w.imag).max() > 1e-9 * np.abs(w.real).max():
+                bad.append({'what': 's=%g/sparse=%s/complex' % (s_, sparse), 'eigvals': [complex(x) for x in w]})
+                continue
+            w = np.sort(np.asarray(w.real, dtype=float)) * np.sqrt(s_)
+            if ref is None:
+                ref = w
+            elif w.shape != ref.shape or not np.allclose(w, ref, rtol=1e-6):
+                bad.append({'what': 's=%g/sparse=%s' % (s_, sparse), 'scaled_frequencies': [float(x) for x in w], 'reference': [float(x) for x in ref]})
+    return bad
 
 
 def replay(path):
